@@ -12,7 +12,7 @@ func init() {
 			"probe_refill_unfinished_token", "probe_refill_inplace", "probe_refill_reuse_pool_block", "probe_refill_fresh_alloc",
 			"probe_buffer_growth", "eof_with_data", "fault_zero_before_eof", "fault_error_with_data", "fault_error_without_data",
 			"probe_held_expired", "probe_held_verified_after_swap", "probe_shiftext_had_to_read", "probe_memory_family_runs",
-			"probe_peekrune_multibyte", "fault_zero_read", "fault_short_read", "probe_drained_to_end", "probe_long_input", "probe_memory_family_lagged_free",
+			"probe_peekrune_multibyte", "fault_zero_read", "fault_short_read", "probe_drained_to_end", "probe_long_input", "probe_huge_input", "probe_memory_family_lagged_free",
 		},
 		rule: "one run = one seeded history (swarm-configured operation mix, buffer size, Free discipline) on the real buffer.StreamLexer over a simulated reader whose chunking/zero reads/EOF style/failure point are drawn per Read call; non-trivial = at least one refill happened while a token was unfinished, or an injected reader failure fired, or the run belongs to the long-stream memory family; distinct = hash of the sequence (operation kind, refill kind caused) differs",
 		realStub: map[string][]string{
@@ -32,7 +32,7 @@ func init() {
 		requiredProbes: []string{
 			"probe_terminator_borrowed", "probe_restore_after_borrow", "probe_ctor_reader_failed", "probe_ctor_reader_chunked",
 			"probe_peekrune_i_gt0_near_end", "probe_peekrune_multibyte", "probe_peekrune_truncated_at_end", "probe_peekrune_invalid_or_truncated",
-			"probe_scanned_to_end", "fault_error_with_data", "fault_error_without_data", "fault_zero_read", "eof_with_data",
+			"probe_scanned_to_end", "probe_big_input", "probe_sibling_instance", "fault_error_with_data", "fault_error_without_data", "fault_zero_read", "eof_with_data",
 		},
 		rule: "one run = one seeded cursor history on a real parse.Input or buffer.Lexer built through a tape-chosen constructor (bytes with/without spare capacity and tape-chosen garbage behind the input, string, simulated reader with chunking/zero reads/EOF styles/failure at byte k, three kinds of Bytes() readers, nil); non-trivial = the constructor's reader chunked or failed, or the terminator was borrowed from the caller's array, or PeekRune(i>0) was issued within 4 bytes of the end; distinct = hash of (type, constructor, failure, operation-kind sequence, distance-to-end class of each rune operation)",
 		realStub: map[string][]string{
@@ -53,7 +53,7 @@ func init() {
 			"fault_truncated", "fault_short_read", "eof_with_data", "eof_with_exact_fit", "fault_error_with_data", "fault_error_without_data",
 			"probe_typed_read_ran_past_end", "probe_typed_read_straddles_end", "probe_mirror_runs", "probe_clone", "probe_iotest_runs",
 			"probe_ioerr_runs", "probe_ioerr_read_crossed_failure", "probe_ioerr_constructor_failed", "probe_bitmap_runs", "probe_bitmap_full_buffer",
-			"probe_parallel_runs", "probe_parallel_lock_contended", "probe_parallel_task_switches", "probe_big_blob", "probe_huge_readbytes", "probe_bitmap_recycled_buffer",
+			"probe_parallel_runs", "probe_parallel_lock_contended", "probe_parallel_task_switches", "probe_big_blob", "probe_huge_readbytes", "probe_bitmap_recycled_buffer", "probe_bitmap_large",
 		},
 		rule: "one run = one seeded history: typed writes through the real BinaryWriter (both byte orders, optional prefix), truncation at a tape-chosen byte, then typed reads / ReadBytes / Read / ReadAt / Seek / Clone on the real BinaryReader over one of 11 constructors (memory, reader with Bytes(), simulated ReadSeeker with and without size, simulated ReaderAt, ReadAll path, streaming reader, real file by handle and by path, mmap by path and by handle) with short reads and both EOF styles drawn per Read call; separate families: injected non-EOF failure at byte F, bitmap writer/reader, and 2-4 parallel ReadAt/Clone callers interleaved at every Seek/Read/ReadAt of the shared source by the seeded scheduler; non-trivial = truncated, or a short read / EOF-with-data / exact-fit EOF fired, or a failure was injected, or a bitmap run with >=1 bit, or a scheduled run with a contended lock or >=3 task switches; distinct = hash of (backend, byte order, operation-kind sequence, whence values, schedule)",
 		realStub: map[string][]string{
@@ -69,7 +69,7 @@ func init() {
 		},
 	}
 	cfgs["C20"] = &propCfg{
-		quickRuns: 30000, thoroughRuns: 2400000,
+		quickRuns: 20000, thoroughRuns: 2400000,
 		quickBudget: 150 * time.Second, thoroughBudget: 14 * time.Minute,
 		raceShare: 2, singleProc: true, freshEvery: 16,
 		requiredProbes: []string{
